@@ -3,7 +3,7 @@ import ast
 
 from ..astx import (calls_in, dotted, norm, src, iter_nodes, aliases_of, assigned_targets,
                     assigned_names, const_value, is_const, parent_chain)
-from ..lib import (cfg_nodes_with_call, node_calls, returns, raises, raised_class, stmt_assigns_attr,
+from ..lib import (call_arg, relation, truth, other, cmp_views, core, holds_region, conditions, eval_conditions, relation_tests, atom_key, expand_condition, mode_mismatch_conditions, cfg_nodes_with_call, node_calls, returns, raises, raised_class, stmt_assigns_attr,
                    callee_last, guard_region, find_test_nodes, compare_parts, is_name, is_self_attr, node_roots)
 from ..linear import ctext, lin, Lin, slice_bounds
 from ..loader import AnalysisError
@@ -126,31 +126,35 @@ def check_sizes(c, f):
 
 def check_drain(c, f):
     g = f.cfg
-    alive_tests = [t for t in g.nodes if t.kind == 'test' and norm(t.ast) == 'not self.isalive()']
-    c.need(len(alive_tests) >= 2, 'spawn.read_nonblocking: expected two `not self.isalive()` tests, found %d' % len(alive_tests))
+    # liveness tests, whichever way round they are written: (test node, outcome on which the child is DEAD)
+    alive_tests = []
+    for t in g.nodes:
+        if t.kind == 'test':
+            core, lab = truth(t.ast)
+            if norm(core) == 'self.isalive()':
+                alive_tests.append((t, other(lab)))
+    c.need(len(alive_tests) >= 2, 'spawn.read_nonblocking: expected two self.isalive() tests, found %d' % len(alive_tests))
     n = 0
     for r in raises(f):
         if raised_class(r.ast, f) != 'EOF':
             continue
-        deps = [t for t in alive_tests if r in guard_region(g, t, 'true')]
+        deps = [(t, dl) for t, dl in alive_tests if r in guard_region(g, t, dl)]
         if not deps:
             continue
         n += 1
-        t = deps[-1]
-        dead = guard_region(g, t, 'true')
-        polls = [p for p in dead if p.kind == 'test' and norm(p.ast) in ('select(0)', 'not select(0)')]
+        t, dl = deps[-1]
+        dead = guard_region(g, t, dl)
+        polls = [(p, truth(p.ast)[1]) for p in dead if p.kind == 'test' and norm(truth(p.ast)[0]) == 'select(0)']
         ok = False
-        for p in polls:
-            edge = 'false' if norm(p.ast) == 'select(0)' else 'true'
-            if r in guard_region(g, p, edge):
+        for p, ready in polls:
+            if r in guard_region(g, p, other(ready)):
                 ok = True
         c.check(ok, f, r.ast, 'EOF for a dead child is raised only after a readiness poll, made after the liveness check, found nothing '
                 '(otherwise data written just before the child died is reported after EOF)',
                 witness='no failed select(0) between the liveness check at L%d and the raise' % t.lineno, tag='drain-before-eof')
         # the successful re-poll reads
-        for p in polls:
-            edge = 'true' if norm(p.ast) == 'select(0)' else 'false'
-            rd = [m for m in guard_region(g, p, edge) if m.kind == 'stmt' and isinstance(m.ast, ast.Return)
+        for p, ready in polls:
+            rd = [m for m in guard_region(g, p, ready) if m.kind == 'stmt' and isinstance(m.ast, ast.Return)
                   and any(callee_last(k) == 'read_nonblocking' for k in node_calls(m))]
             c.check(bool(rd), f, p.ast, 'a successful re-poll returns the pending data', tag='repoll-reads@L%d' % 0 if False else 'repoll-reads:' + str(n))
     c.need(n >= 2, 'expected 2 liveness-dependent raise EOF sites, found %d' % n)
@@ -166,20 +170,24 @@ def check_base_read(c, f):
     c.need(tr and len(tr[0].handlers) == 1, 'os.read is not inside a single-handler try')
     h = tr[0].handlers[0]
     c.check(norm(h.type) == 'OSError', f, h, 'the handler catches OSError only', witness=norm(h.type), kind='ast', tag='handler-type')
-    eio = [n for n in ast.walk(h) if isinstance(n, ast.If) and 'errno.EIO' in norm(n.test)]
-    c.need(len(eio) == 1, 'EIO test not found')
     hn = h.name or 'err'
-    c.check(norm(eio[0].test) in ('%s.args[0] == errno.EIO' % hn, '%s.errno == errno.EIO' % hn, 'errno.EIO == %s.args[0]' % hn), f, eio[0],
-            'the handler recognises exactly errno EIO (the pty\'s way of saying end of file)', witness=norm(eio[0].test), kind='alg', tag='eio-test')
-    body = eio[0].body
-    ok = any(isinstance(s, ast.Assign) and stmt_assigns_attr(s, 'flag_eof') is not None and is_const(s.value, True) for s in body) \
-        and isinstance(body[-1], ast.Raise) and raised_class(body[-1], f) == 'EOF'
-    c.check(ok, f, eio[0], 'EIO -> flag_eof = True; raise EOF', kind='ast', tag='eio')
-    idx = h.body.index(eio[0]) if eio[0] in h.body else None
-    rest = h.body[idx + 1:] if idx is not None else []
-    ok = (len(rest) == 1 and isinstance(rest[0], ast.Raise) and rest[0].exc is None) or \
-        (eio[0].orelse and isinstance(eio[0].orelse[-1], ast.Raise) and eio[0].orelse[-1].exc is None)
-    c.check(ok, f, h, 'any other OSError is re-raised unchanged', kind='ast', tag='other-oserror')
+    eio = [(t, lab) for t, lab in relation_tests(g, 'eq', lambda e: norm(e) in ('%s.args[0]' % hn, '%s.errno' % hn), lambda e: norm(e) == 'errno.EIO')
+           if any(t.ast is d for d in ast.walk(h))]
+    others = [t for t in g.nodes if t.kind == 'test' and any(t.ast is d for d in ast.walk(h)) and not any(t is e_[0] for e_ in eio)]
+    c.check(len(eio) == 1 and not others, f, eio[0][0].ast if eio else h,
+            'the handler recognises exactly errno EIO (the pty\'s way of saying end of file)',
+            witness=str([norm(t.ast) for t, _ in eio] + [norm(t.ast) for t in others]), kind='alg', tag='eio-test')
+    c.need(len(eio) == 1, 'EIO test not found')
+    te, lab = eio[0]
+    reg = guard_region(g, te, lab, skip_labels=())
+    okf = any(m.kind == 'stmt' and stmt_assigns_attr(m.ast, 'flag_eof') is not None and is_const(m.ast.value, True) for m in reg)
+    rs_ = [m for m in reg if m.kind == 'stmt' and isinstance(m.ast, ast.Raise)]
+    ok = okf and len(rs_) == 1 and raised_class(rs_[0].ast, f) == 'EOF' and \
+        g.must_pass(te, {rs_[0]}, set(m for m in reg if m.kind == 'stmt' and stmt_assigns_attr(m.ast, 'flag_eof') is not None), skip_labels=('exc',))[0]
+    c.check(ok, f, te.ast, 'EIO -> flag_eof = True; raise EOF', kind='path', tag='eio')
+    nxt = [s_ for s_, l in te.succ if l == other(lab)]
+    ok = len(nxt) == 1 and nxt[0].kind == 'stmt' and isinstance(nxt[0].ast, ast.Raise) and nxt[0].ast.exc is None
+    c.check(ok, f, h, 'any other OSError is re-raised unchanged', kind='path', tag='other-oserror')
     var = rn.ast.targets[0].id if isinstance(rn.ast, ast.Assign) else None
     c.need(var, 'os.read result is not assigned')
     empt = [t for t in g.nodes if t.kind == 'test' and norm(t.ast) in ("%s == b''" % var, 'not %s' % var, "len(%s) == 0" % var)]
